@@ -55,8 +55,7 @@ def locked_make(targets, timeout=1500):
             gen_report = {"_error": gen.stdout[-500:] + gen.stderr[-500:]}
         if gen.returncode != 0 and "_error" not in gen_report:
             gen_report["_error"] = gen.stderr[-800:]
-        if not (COQ / "Makefile").exists():
-            subprocess.run(["coq_makefile", "-f", "_CoqProject", "-o", "Makefile"], cwd=COQ, capture_output=True)
+        subprocess.run([str(ROOT / "harness" / "mkproject.sh")], capture_output=True)
         p = subprocess.run(["timeout", str(timeout), "make", "-j16"] + targets, cwd=COQ, capture_output=True, text=True)
         return p.returncode, p.stdout[-4000:] + p.stderr[-4000:], gen_report
 
